@@ -85,8 +85,9 @@ def run(m: Model, r: Report, tier: str) -> None:
         r.check3(None if unknown_j else not bad_j, rid_, f"{jh.qualname}#{cn_}", f"{bad_j[:3]}: {why_}", loc=jh.loc, unknown_msg=f"join_host_port is outside the evaluated language: {unknown_j}")
     sh = m.require_function(f"{NET}.split_host_port")
     ssrc = ast.unparse(sh.node)
-    r.check("urlparse(f'//{hostport}')" in ssrc and "url.hostname" in ssrc and "url.port" in ssrc and "ipaddress.ip_address(hostport)" in ssrc, "R2",
-            f"{sh.qualname}#inverse", "split_host_port must parse bracketed hosts through urlparse and bare IP literals through ipaddress", loc=sh.loc)
+    r.check3(True if ("urlparse(f'//{hostport}')" in ssrc and "url.hostname" in ssrc and "url.port" in ssrc and "ipaddress.ip_address(hostport)" in ssrc) else
+             (None if ("urlparse(" in ssrc and "ip_address(" in ssrc) or any(isinstance(n_, ast.Call) and isinstance(n_.func, ast.Name) and n_.func.id in sh.module.functions for n_ in ast.walk(sh.node)) else False), "R2",
+             f"{sh.qualname}#inverse", "split_host_port must parse bracketed hosts through urlparse and bare IP literals through ipaddress", loc=sh.loc)
     # port 0 is a port: "is the port present" must be decided with `is None`, never by truthiness
     def _truthy_port_tests(fn) -> list[str]:
         out_ = []
